@@ -141,3 +141,25 @@ Definition class_init (c : ccase) : bool := let '(W, v, o) := c in explained W v
    guard = conjunction of the clauses; kept as a separate check for the evidence *)
 Definition in_domain (c : ccase) : bool := let '(W, v, o) := c in wf W v.
 Definition in_guard (c : ccase) : bool := let '(W, v, o) := c in wf W v && guard W v.
+
+(* ---- the witnesses of Proofs/PycodeRefuted.v are the objects the harness built ---- *)
+Definition fdefault_eqb (a b : fdefault) : bool :=
+  match a, b with
+  | DMissing, DMissing => true
+  | DValue x, DValue y => value_eqb x y
+  | DFactory x, DFactory y => value_eqb x y
+  | _, _ => false
+  end.
+Definition fdesc_eqb (a b : fdesc) : bool :=
+  str_eqb (f_name a) (f_name b) && Bool.eqb (f_init a) (f_init b) && fdefault_eqb (f_default a) (f_default b).
+Definition ckind_eqb (a b : ckind) : bool :=
+  match a, b with
+  | KData f x, KData g y => Bool.eqb f g && list_eqb fdesc_eqb x y
+  | KEnum x, KEnum y => list_eqb str_eqb x y
+  | _, _ => false
+  end.
+Definition cdesc_eqb (a b : cdesc) : bool := cref_eqb (c_ref a) (c_ref b) && ckind_eqb (c_kind a) (c_kind b).
+(* every class of [sub] is described identically in [W] *)
+Definition world_includes (W sub : world) : bool := forallb (fun d => existsb (cdesc_eqb d) W) sub.
+Definition witnesses_agree (W : world) (built : list value) (W_wit : world) (wits : list value) : bool :=
+  world_includes W W_wit && list_eqb value_eqb wits built.
